@@ -90,30 +90,42 @@ ArgsLoop:
 			encodedArg = escapeAttrPattern(pattern)
 		}
 
+		// Without --lockable or --not-lockable the lockable attribute
+		// of a line that is rewritten is left as it is.
+		keepLockable := false
 		if !trackNoModifyAttrsFlag {
 			for _, known := range knownPatterns {
 				knownPath := unescapeAttrPattern(known.Path)
 				// A rooted pattern in the top-level file keeps its
 				// leading slash in known.Path, while path.Join()
 				// removes it.
-				if (knownPath == path.Join(relpath, pattern) || (relpath == "." && knownPath == pattern)) &&
+				if knownPath != path.Join(relpath, pattern) && !(relpath == "." && knownPath == pattern) {
+					continue
+				}
+				// A line that mentions the pattern without giving
+				// it the LFS filter ("lockable" alone, "-filter")
+				// does not make it a tracked pattern.
+				if known.Tracked &&
 					((trackLockableFlag && known.Lockable) || // enabling lockable & already lockable (no change)
 						(trackNotLockableFlag && !known.Lockable) || // disabling lockable & not lockable (no change)
 						(!trackLockableFlag && !trackNotLockableFlag)) { // leave lockable as-is in all cases
 					Print(tr.Tr.Get("%q already supported", pattern))
 					continue ArgsLoop
 				}
+				if known.Lockable && !trackNotLockableFlag {
+					keepLockable = true
+				}
 			}
 		}
 
 		lockableArg := ""
-		if trackLockableFlag { // no need to test trackNotLockableFlag, if we got here we're disabling
+		if trackLockableFlag || keepLockable { // no need to test trackNotLockableFlag, if we got here we're disabling
 			lockableArg = " " + git.LockableAttrib
 		}
 
 		changedAttribLines[pattern] = fmt.Sprintf("%s filter=lfs diff=lfs merge=lfs -text%v%s", encodedArg, lockableArg, lineEnd)
 
-		if trackLockableFlag {
+		if trackLockableFlag || keepLockable {
 			readOnlyPatterns = append(readOnlyPatterns, pattern)
 		} else {
 			writeablePatterns = append(writeablePatterns, pattern)
